@@ -2,7 +2,10 @@
 
 package dicescript
 
-import "errors"
+import (
+	"errors"
+	"strconv"
+)
 
 func init() {
 	vHarnesses["VH_C17_transparent"] = VH_C17_transparent
@@ -210,4 +213,77 @@ func VH_C17_alt() {
 	v, ok := vm.Ret.ReadInt()
 	vAssert(ok && int64(v) == pr.val, "value-as-written")
 	vAssert(vm.RestInput == pr.rest, "rest-text-as-written")
+}
+
+func init() {
+	vHarnesses["VH_C17_stream2"] = VH_C17_stream2
+}
+
+var vC17Stream2Progs = []struct {
+	src   string
+	calls []string // "text a b" for every handler call, in order
+	val   int64
+}{
+	{"C3T2", []string{"C3T2 3 2"}, 5},
+	{"C3T2 + C40T50", []string{"C3T2 3 2", "C40T50 40 50"}, 95},
+	{"C1T1 * 2 + C7T8 + C9T9", []string{"C1T1 1 1", "C7T8 7 8", "C9T9 9 9"}, 37},
+	{"x = C5T6; x + C1T2", []string{"C5T6 5 6", "C1T2 1 2"}, 14},
+	{"i = 0; s = 0; while i < 2 { i = i + 1; s = s + C2T3 }; s + C10T1", []string{"C2T3 2 3", "C2T3 2 3", "C10T1 10 1"}, 21},
+}
+
+//vh:prop=C17 tiers=quick,thorough sigkeys=prog,reuse budget_s=600 bounds="5 programs with one to three operands of a custom syntax C<a>T<b> registered as a stream parser that returns explicit groups, either in fresh storage or in one slice it reuses for every call (its own property): the handler receives, for each operand and each evaluation, exactly that operand's text and groups, in order, and the value is the sum the groups imply"
+func VH_C17_stream2() {
+	pr := vC17Stream2Progs[vChoice("prog", len(vC17Stream2Progs))]
+	reuse := vChoice("reuse", 2) == 1
+	vm := vNewVM()
+	vm.Config.OpCountLimit = 30000
+	var got []string
+	buf := make([]string, 3)
+	vAssert(vm.RegCustomDiceParser(func(ctx *Context, s *CustomDiceStream) (*CustomDiceParseResult, error) {
+		r, ok := s.Read()
+		if !ok || r != 'C' {
+			return nil, nil
+		}
+		a, ok := s.ReadDigits()
+		if !ok {
+			return nil, nil
+		}
+		r, ok = s.Read()
+		if !ok || r != 'T' {
+			return nil, nil
+		}
+		b, ok := s.ReadDigits()
+		if !ok {
+			return nil, nil
+		}
+		g := buf
+		if !reuse {
+			g = make([]string, 3)
+		}
+		g[0], g[1], g[2] = "C"+a+"T"+b, a, b
+		return &CustomDiceParseResult{Matched: true, Groups: g}, nil
+	}, func(ctx *Context, groups []string, payload any) (*VMValue, string, error) {
+		if len(groups) != 3 {
+			got = append(got, "<wrong group count>")
+			return NewIntVal(0), "", nil
+		}
+		got = append(got, groups[0]+" "+groups[1]+" "+groups[2])
+		x, _ := strconv.Atoi(groups[1])
+		y, _ := strconv.Atoi(groups[2])
+		return NewIntVal(IntType(x + y)), "", nil
+	}) == nil, "parser-registers")
+	err := vm.Run(pr.src)
+	vReach("ran")
+	vAssert(err == nil, "custom-dice-program-evaluates")
+	if err != nil {
+		return
+	}
+	vAssert(len(got) == len(pr.calls), "handler-runs-once-per-evaluation-of-each-operand")
+	for i := range got {
+		if i < len(pr.calls) {
+			vAssert(got[i] == pr.calls[i], "handler-receives-that-operand's-text-and-groups")
+		}
+	}
+	v, ok := vm.Ret.ReadInt()
+	vAssert(ok && int64(v) == pr.val, "value-is-what-the-groups-imply")
 }
